@@ -8,7 +8,7 @@
    The line/last-line bookkeeping of JustifyOpts is decided by check_C12 on the model. *)
 From Coq Require Import List Bool ZArith Lia.
 Import ListNotations.
-From Rosed Require Import Base.Res Base.ListX Base.Str Gem.Segment Gem.GString Model.Manip Model.Table Proofs.SeamP Proofs.C12P Proofs.C12Q Proofs.C12R.
+From Rosed Require Import Base.Res Base.ListX Base.Str Gem.Segment Gem.GString Model.Manip Model.Table Proofs.SeamP Proofs.C12P Proofs.C12Q Proofs.C12R Base.Utf8 Model.Options Model.Editor Model.Ops Proofs.OpsMapP.
 Open Scope Z_scope.
 
 (* fullList[spaceWordIdx] is always in range; every iteration appends one U+0020 to one entry *)
@@ -47,3 +47,14 @@ Print Assumptions C12_exact_width_even_gaps.
 Example C12_premises_met : forall (C : Classifier) (K : ClassifierOk),
   Forall (fun word => starts_ok word /\ ends_ok word) [[97]; [98; 99]; [100]].
 Proof. intros C K. exact premises_met. Qed.
+
+(* Justify as an Editor operation with JustifyLastLine, outside paragraph mode: every line of the
+   one line decomposition is replaced by its JustifyLine, the lines are re-joined and the final
+   terminator is kept exactly when it was there: the number of lines and the trailing separator
+   are unchanged *)
+Theorem C12_justify_opts_lines : forall (C : Classifier) (U : Upper) width opts e,
+  o_preserve (with_defaults opts) = false -> o_justlast (with_defaults opts) = true ->
+  justify_opts width opts e =
+    Ok (with_text e (join (o_linesep (with_defaults opts)) (mapped_lines (just_line width) opts e))).
+Proof. intros C U. exact justify_opts_lines. Qed.
+Print Assumptions C12_justify_opts_lines.
